@@ -4,6 +4,6 @@ CONSTANTS
   Sample <- SampleQuick
   Shipped = FALSE
   MergeOps = {"update", "extend", "iadd", "add"}
-  Configs <- ConfigsAll
+  Configs <- ConfigsSome
   Positions = TRUE
 CHECK_DEADLOCK FALSE
